@@ -4,7 +4,7 @@ Import ListNotations.
 From Exmex.Model Require Import Base EvalBinary Lexer Flat Deep Convert.
 From Exmex.Spec Require Import RefSem.
 From Coq Require Import Sorted.
-From Exmex.Proofs Require Import CompileCorrect FlatPev DeepSem DeepCompile DeepParse C03Main C01Main C01Vars C11Main ConvertMain ToDeep ConvertCompose Accept WalkSim Vars Listings ParseListings.
+From Exmex.Proofs Require Import CompileCorrect FlatPev DeepSem DeepCompile DeepParse C03Main C01Main C01Vars C11Main ConvertMain ToDeep ConvertCompose Accept WalkSim Vars Listings ParseListings LexSpaced.
 Open Scope nat_scope.
 
 (* 1. The deep parser (recursive descent, one folded sub-expression per parenthesis group and per variable under unary
@@ -47,6 +47,27 @@ Proof.
   intros D C tb R Hr Hs Ht Hb Hu Ha c vals Hwf Hlen.
   destruct (deep_parse_is_reference C tb R Hr Hs Ht Hb Hu Ha c vals Hwf Hlen) as (e & v & H1 & H2 & H3 & H4).
   exists e, v. unfold parse_deep_tokens. rewrite (rendering_accepted tb c Hwf). cbn [bind]. rewrite H1. cbn [bind]. repeat split; assumption.
+Qed.
+
+(* ... and through the text entry point DeepEx::parse on the canonical text rendering of the tree (LexSpaced.stext: every
+   token followed by a space), when every token is readable in front of a space (lexable) *)
+Theorem C03_deep_text_entry_point :
+  forall (D : Type) (C : carrier D) (tb : optable) (is_literal : str -> option nat) (R : D -> D -> Prop),
+  (forall a, R a a) -> (forall a b, R a b -> R b a) -> (forall a b c, R a b -> R b c -> R a c) ->
+  (forall k a a' b b', R a a' -> R b b' -> R (binf C k a b) (binf C k a' b')) ->
+  (forall k a a', R a a' -> R (unf C k a) (unf C k a')) ->
+  (forall o, comm_of tb o = true -> forall a b c, R (binf C o (binf C o a b) c) (binf C o a (binf C o b c))) ->
+  forall (c : chain (D:=D)) (vals : list D),
+  wf_chain tb c = true -> Forall (lexable C tb is_literal) (flatten c) -> length vals = length (find_parsed_vars (flatten c)) ->
+  exists e v,
+    parse_deep C tb is_literal (stext C tb (flatten c)) = Ok e /\
+    dvars e = find_parsed_vars (flatten c) /\
+    eval_deep C e vals = Ok v /\
+    R v (ref_chain C tb (find_parsed_vars (flatten c)) vals c).
+Proof.
+  intros D C tb is_literal R Hr Hs Ht Hb Hu Ha c vals Hwf Hlex Hlen.
+  destruct (C03_deep_token_entry_point D C tb R Hr Hs Ht Hb Hu Ha c vals Hwf Hlen) as (e & v & H1 & H2 & H3 & H4).
+  exists e, v. unfold parse_deep. rewrite (tokenize_spaced C tb is_literal (flatten c) Hlex). cbn [bind]. repeat split; assumption.
 Qed.
 
 (* 2. Hence the two forms agree: same variables, values equal modulo R, for every well-formed tree and assignment. *)
@@ -216,3 +237,4 @@ Print Assumptions C03_listings_are_the_operators_of_the_expression.
 Print Assumptions C03_deep_to_flat_keeps_the_listings.
 Print Assumptions C03_unfolded_parse_lists_the_operators_of_the_text.
 Print Assumptions C03_folding_only_removes_names_partial.
+Print Assumptions C03_deep_text_entry_point.
